@@ -17,7 +17,8 @@ FilesOf(u) == [k \in 1..Len(u.files) |-> [dir |-> u.files[k].dir, uses |-> ToSet
 RenOf(u) == [d \in DirsOf(u) |-> ToSet(u.rename[d])]
 
 D(u) == INSTANCE DeprScope WITH Dirs <- DirsOf(u), Parent <- u.parent, IsProject <- u.isproject,
-                                RenameAt <- RenOf(u), WalkOrder <- u.dirs, IdfRoot <- u.idf, Components <- u.components, Files <- FilesOf(u)
+                                RenameAt <- RenOf(u), WalkOrder <- u.dirs, IdfRoot <- u.idf, Components <- u.components, Files <- FilesOf(u),
+                                Explicit <- ToSet(u.explicit), Includes <- ToSet(u.includes)
 
 Init == t \in 1..Len(Us) /\ st = D(Us[t])!InitState /\ hist = <<>>
 Next == \E f \in 1..Len(U.files) :
